@@ -153,6 +153,7 @@ class WMTS100TileRequest(WMTSRequest):
         self.format = self.params.format  # TODO
         self.tile = (int(self.params.coord[0]), int(self.params.coord[1]), int(self.params.coord[2]))
         self.origin = 'nw'
+        self.all_levels = True  # TileMatrix identifiers are the levels of the grid
         self.dimensions = self.params.dimensions
 
     def validate(self):
@@ -338,6 +339,7 @@ class WMTS100RestTileRequest(TileRequest):
     xml_exception_handler = WMTS100ExceptionHandler
     request_handler_name = 'tile'
     origin = 'nw'
+    all_levels = True  # TileMatrix identifiers are the levels of the grid
 
     def __init__(self, request, req_vars, url_converter=None):
         self.http = request
@@ -371,6 +373,7 @@ class WMTS100RestFeatureInfoRequest(TileRequest):
     """
     xml_exception_handler = WMTS100ExceptionHandler
     request_handler_name = 'featureinfo'
+    all_levels = True  # TileMatrix identifiers are the levels of the grid
 
     def __init__(self, request, req_vars, url_converter=None):
         self.http = request
